@@ -14,7 +14,7 @@ becomes `dest = _0'; goto <continuation>`.  What is inlined is decided by shape 
 A helper that is not reachable from outside the crate (`exported == false`, rustc's effective visibilities) and was inlined at
 every call site has no other caller, so its own body is dropped; an exported helper keeps its body and stays subject to the
 helper census.  Anything not inlined stays a `localcall` effect, which CEN-call reports (fail closed)."""
-import copy
+import copy, re
 
 MAX_BLOCKS = 600
 MAX_ROUNDS = 3
@@ -222,9 +222,35 @@ def desugar_hofs(raw):
                 kind = "try_branch_res"
             elif cdefn == "std::ops::FromResidual::from_residual" and self_ty.startswith("std::option::Option<"):
                 kind = "from_residual_opt"
+            if cdefn and re.match(r"^core::num::<impl \w+>::checked_sub$", cdefn) and len(t["args"]) == 2:
+                kind = "checked_sub"        # `r.checked_sub(k)`: Some(r - k) iff r >= k
             if kind is None or own_file(blk.get("ts", {})).startswith(("dep:tracing", "dep:log")):
                 continue
             if not t["succ"] or not t["args"]:
+                continue
+            if kind == "checked_sub":
+                a0, b0 = copy.deepcopy(t["args"][0]), copy.deepcopy(t["args"][1])
+                for o in (a0, b0):
+                    if "move" in o:
+                        o["copy"] = o.pop("move")
+                ts = blk.get("ts")
+                K = t["succ"][0]
+                dest = t["dest"]
+                nl = max(l["l"] for l in body["locals"]) + 1
+                body["locals"].append({"l": nl, "ty": "bool", "flags": [], "hof": True})
+                body["locals"].append({"l": nl + 1, "ty": "usize", "flags": [], "hof": True})
+                nb = max(b["id"] for b in body["blocks"]) + 1
+                okb = {"id": nb, "cleanup": False, "ts": ts, "hof": kind, "stmts": [
+                    {"lhs": {"l": nl + 1, "p": []}, "rv": {"k": "binop", "op": "Sub", "a": a0, "b": b0}, "s": ts},
+                    {"lhs": dest, "rv": {"k": "agg", "ak": "adt", "adt": "std::option::Option", "variant": "Some", "vi": 1, "ops": [{"move": {"l": nl + 1, "p": []}}]}, "s": ts}],
+                    "term": {"k": "goto", "succ": [K]}}
+                noneb = {"id": nb + 1, "cleanup": False, "ts": ts, "hof": kind, "stmts": [
+                    {"lhs": copy.deepcopy(dest), "rv": {"k": "agg", "ak": "adt", "adt": "std::option::Option", "variant": "None", "vi": 0, "ops": []}, "s": ts}],
+                    "term": {"k": "goto", "succ": [K]}}
+                body["blocks"].extend([okb, noneb])
+                blk["stmts"].append({"lhs": {"l": nl, "p": []}, "rv": {"k": "binop", "op": "Lt", "a": copy.deepcopy(a0), "b": copy.deepcopy(b0)}, "s": ts})
+                blk["term"] = {"k": "switch", "discr": {"move": {"l": nl, "p": []}}, "targets": [[0, nb]], "otherwise": nb + 1, "succ": [nb, nb + 1]}
+                done.append((body["id"], kind, None))
                 continue
             recv = t["args"][0]
             rp = recv.get("move") or recv.get("copy")
